@@ -21,7 +21,7 @@ CHECKS = {
              text="Generated-input search over override chains; oracle is the reference model (next link outward, reference sets per link); one sub-check enumerates all 3^8 x 2 override chains over 8 provider slots (bounded-exhaustive for that space only); an LSP sub-check asks textDocument/references from both columns of every overriding definition line. Exploration only.",
              note="trusted: reference model (model.rs), renderer token table; single-line signatures", ref="DESIGN.md 4 C02", engine="vengine"),
  "C16": dict(technique="model-based property testing (proptest): reference definition-level dependency graph (SCCs, scope order) vs reported diagnostics",
-             text="Generated-input search over dependency graphs spread across files; oracle is the model's definition-level graph: reported paths must be real closed chains, cyclic SCCs must be reported, scope warnings must equal the model set, reports must be stable under recomputation. Exploration only.",
+             text="Generated-input search over dependency graphs spread across files; oracle is the model's definition-level graph: reported paths must be real closed chains, cyclic SCCs must be reported, scope warnings must equal the model set, reports must be stable under recomputation and, after fixture-defining modules were edited to define no fixture, equal to the reports of an index built from the resulting contents (differential, no model). Exploration only.",
              note="trusted: reference model (model.rs); Tarjan SCC in the harness", ref="DESIGN.md 4 C16", engine="vengine"),
  "C08": dict(technique="metamorphic property testing (proptest): observable snapshot invariant under permutations of the per-file analysis order",
              text="Generated-input search over workspaces with colliding names; oracle is equality of the full observable snapshot across analysis orders on fresh indexes (all orders for workspaces of <= 6 files in one sub-check), across real parallel scans in child processes with 1/2/3/5/8 workers on widened materialised workspaces, and across 1/3/8-worker scans of real-world package test suites. Differences are admitted entry by entry only with the signature of the two recorded findings. Exploration only.",
@@ -33,7 +33,7 @@ CHECKS = {
              text="Generated-input search for crashes: every public library entry point under catch_unwind, the real server over stdio with liveness probe, scans of trees with injected faults compared per file with the fault-free scan. Real-world files found offline are used as first versions of mutation histories too. The thorough tier adds a structure-aware libFuzzer campaign (fuzz/fz_session, 14 workers, pinned seeds). Exploration only.",
              note="trusted: release profile equals the shipped configuration; watchdog expiry without panic evidence is inconclusive", ref="DESIGN.md 4 C11", engine="vengine"),
  "C15": dict(technique="differential property testing (proptest grammar generator) of every LSP range against CPython tokenize/ast token positions in UTF-16 units",
-             text="Generated-input search over position-stressing documents served by the real binary; oracle is the token table computed independently by CPython, plus structural LSP rules (inside document, start<=end, selection inside range, no duplicates). Exploration only.",
+             text="Generated-input search over position-stressing documents served by the real binary, opened once or reached by a didChange from an earlier version (shifted lines; same length and same first/last 2.5 KiB in a > 4 KiB document; unrelated text); oracle is the token table computed independently by CPython, plus structural LSP rules (inside document, start<=end, selection inside range, no duplicates). Exploration only.",
              note="trusted: CPython 3.11 tokenize/ast; the LSP client in engine/src/lsp.rs", ref="DESIGN.md 4 C15", engine="vengine"),
  "C13": dict(technique="model-based + metamorphic property testing (proptest) on materialised directory trees: selection/closure model, stand-alone analysis equality, relocation invariance",
              text="Generated-input search over directory trees, exclude sets and absolute placements; oracles: selection + import-closure model, per-file equality with a stand-alone analysis, identical root-relative results and CLI output across placements. Exploration only.",
@@ -59,9 +59,9 @@ CHECKS = {
  "C10": dict(technique="schedule-controlled property testing (proptest-generated schedules, owned scheduler): scan-path analysis vs editor analysis of ONE file; scan-then-editor state and +1-change restoration as oracles",
              text="Generated-input search over disk/buffer texts and schedules of the scan worker and the editor analysis of the same document; oracle: quiescent state == sequential scan->editor state, and one more change == single-analysis state of a fresh index. Deterministic sub-checks without concurrency: the real scan after an editor notification for a module reached only through imports (or after mere queries), and the scan path revisiting an opened document with unchanged text (everything but the duplicated definitions of the recorded finding must be there once). Exploration only.",
              note="trusted: shims/dashmap + scheduler; the verif hook exposing the scan's no-cleanup path", ref="DESIGN.md 4 C10", engine="vsched"),
- "C12": dict(technique="property-based testing with an invariant over recorded lock nestings (instrumented DashMap), generated schedules with deterministic deadlock detection, step-bounded cyclic inputs, and generated LSP sessions against the real server built on the instrumented DashMap in all-keys-collide mode",
-             text="Generated-input search over workloads, schedules, cyclic inputs and pipelined server sessions; oracle: no conflicting re-entrant acquisition per map, no cycle of conflicting waits between maps, no controller deadlock, every operation within a step bound. Exploration only: potential deadlocks are inferred from nestings that some generated run executed. Lock-free text scans of half-typed documents run on a helper thread; one that does not return within 20 s makes the run inconclusive (exit 2), never a violation.",
-             note="trusted: shims/dashmap hooks; reader-preferring semantics of dashmap's lock (read-in-read is safe); the wrapper crate sched/server compiling the real main.rs/providers against the shim", ref="DESIGN.md 4 C12", engine="vsched"),
+ "C12": dict(technique="property-based testing with an invariant over recorded lock nestings (instrumented DashMap), generated schedules with deterministic deadlock detection, step-bounded cyclic and layered inputs (lock-acquisition bound and an iteration bound inside the cycle search), and generated LSP sessions against the real server built on the instrumented DashMap in all-keys-collide mode",
+             text="Generated-input search over workloads, schedules, cyclic inputs and pipelined server sessions; oracle: no conflicting re-entrant acquisition per map, no cycle of conflicting waits between maps, no controller deadlock, every operation within a step bound (lock acquisitions; for the lock-free dependency-cycle search its own iteration counter, hook 79d769d, limited to 10^6 on graphs of at most 800 fixtures / 3200 edges including acyclic layered graphs with 4^200 paths). Exploration only: potential deadlocks are inferred from nestings that some generated run executed. Lock-free text scans of half-typed documents run on a helper thread; one that does not return within 20 s makes the run inconclusive (exit 2), never a violation.",
+             note="trusted: shims/dashmap hooks; the cfg-guarded iteration counter in compute_fixture_cycles; reader-preferring semantics of dashmap's lock (read-in-read is safe); the wrapper crate sched/server compiling the real main.rs/providers against the shim", ref="DESIGN.md 4 C12", engine="vsched"),
 }
 PENDING = {
 }
